@@ -105,13 +105,15 @@ def run(ctx):
         raise core.MachineryError("no depth-1 states dumped")
     for s in steps:
         s["single"] = 1
+    # cases that can only give soft differences go last: a runaway call there must not hide the others
+    steps.sort(key=lambda s: 1 if (s["op"]["a"] == "BatchRemove" and s["op"]["lim"] == 0) else 0)
     nexh = len(steps)
     ctx.exhaustive = True
     # the implementation-level transcription including closed storages: a violation is a candidate only
     rc = ctx.tlc("PrefixStorage", "PrefixStorage_mc_closed.cfg", allow_violation=True, timeout=900, count=False)
     ctx.extra["model_candidate_ImplAgrees(closed storages)"] = (
         "violated: " + (rc.violated or "?") if rc.safety_violation else "holds")
-    _, behs = ctx.tlc_simulate("PrefixStorage", "PrefixStorage_sim.cfg", num=60 if quick else 1500, depth=41)
+    _, behs = ctx.tlc_simulate("PrefixStorage", "PrefixStorage_sim.cfg", num=60 if quick else 800, depth=41)
     walks = []
     for b in behs:
         b[0]["new"] = 1
@@ -125,7 +127,12 @@ def run(ctx):
     res = os.path.join(ctx.work, "res.ndjson")
     ctx.vh(["C25", "replay", "--in", cases, "--out", res], timeout=2400)
     rows = core.read_ndjson(res)
-    if len(rows) != len(steps):
+    hang = None
+    if rows and rows[-1].get("hang"):
+        # a call that did not return within the watchdog time: judge what was answered, then no verdict (exit 2)
+        hang = steps[len(rows) - 1]
+        rows = rows[:-1]
+    elif len(rows) != len(steps):
         raise core.MachineryError("harness answered %d of %d steps" % (len(rows), len(steps)))
     soft = {}
     kinds = {}
@@ -144,17 +151,22 @@ def run(ctx):
             ctx.violation(key, what, {"step": st, "result": row, "context": ctxinfo})
         return v
 
-    for i in range(nexh):
+    for i in range(min(nexh, len(rows))):
         one(steps[i], rows[i], "independent case")
-    ctx.traces += nexh
+    ctx.traces += min(nexh, len(rows))
     cut = 0
     for (off, ln) in walks:
+        if off + ln > len(rows):
+            break
         ctx.traces += 1
         for j in range(ln):
             v = one(steps[off + j], rows[off + j], {"walk_prefix": [s["op"] for s in steps[off:off + j]]})
             if v != "ok":
                 cut += 1
                 break   # the real store and the model have parted: the rest of the walk says nothing
+    if hang is not None and not ctx.viol:
+        raise core.MachineryError("the call %s (store before %s) did not return within the watchdog time; %d of %d steps answered"
+                                  % (hang["op"], hang["pre"], len(rows), len(steps)))
     ctx.extra["real_calls"] = calls
     ctx.extra["independent_cases"] = nexh
     ctx.extra["walks"] = len(walks)
@@ -172,3 +184,28 @@ def run(ctx):
         "read for limits >= 1",
         "goleveldb's own Get/Put/iterator are trusted (they read the store back)",
     ]
+
+
+def replay(ctx, path):
+    """re-run the failing step of a replay file (with the operations that led to it, if it came from a walk)"""
+    import json
+    case = json.load(open(path))["case"]
+    st = case["step"]
+    steps = []
+    c = case.get("context")
+    if isinstance(c, dict) and not st.get("single"):
+        for op in c.get("walk_prefix", []):
+            steps.append({"op": op, "pre": [], "closed": [], "res": None, "kv": []})
+    steps.append(st)
+    steps[0]["new"] = 1
+    cases, res = os.path.join(ctx.work, "cases.ndjson"), os.path.join(ctx.work, "res.ndjson")
+    core.write_ndjson(cases, steps)
+    ctx.vh(["C25", "replay", "--in", cases, "--out", res])
+    rows = core.read_ndjson(res)
+    if len(rows) != len(steps) or rows[-1].get("hang"):
+        raise core.MachineryError("harness answered %d of %d steps" % (len(rows), len(steps)))
+    ctx.traces += 1
+    ctx.case(["replay", st["pre"], st["closed"], st["op"]], nontrivial=True, sample={"step": st, "result": rows[-1]})
+    v, key, what = judge(st, rows[-1])
+    if v == "viol":
+        ctx.violation(key, what, {"step": st, "result": rows[-1], "context": c})
